@@ -771,6 +771,12 @@ package vanguard
 //@ |  && o.request.URL.Path == old(o.request.URL.Path) && o.request.URL.RawQuery == old(o.request.URL.RawQuery) && o.request.URL.RawPath == old(o.request.URL.RawPath)
 //@ |  && o.request.Host == old(o.request.Host) && o.request.RequestURI == old(o.request.RequestURI)
 
+// match() only writes to the path-segment slice it allocates itself (strings.Split) and to the
+// variable-match slice it returns.
+//@ func (*routeTrie).match
+//@   requires t != nil
+//@   modifies
+
 //@ func (*operation).resolveMethod
 //@   requires o != nil && validReq(o.request) && transcoder != nil && o.client.protocol != nil
 //@   step opSame(o)
@@ -922,3 +928,56 @@ package vanguard
 //@   requires e != nil
 //@   atcall[C04] (*encoding/base64.Encoding).DecodeString: arg(0) == base64.RawStdEncoding
 //@   ensures[C04] result != nil && code(result) == e.Code
+
+// ------------------------------------------------------------------------------------------------
+// C02 / C05 / C12: headers of the request handed to the backend. Each server protocol writes exactly
+// its own control headers from the negotiated requestMeta and touches no other key of the map.
+//@ func grpcAddRequestMeta
+//@   requires headers != nil
+//@   ensures[C02] hdr(headers, "Content-Type") == contentTypePrefix + meta.codec
+//@   ensures[C02] meta.compression != "" ==> hdr(headers, "Grpc-Encoding") == meta.compression
+//@   ensures[C02] meta.compression == "" ==> hdrHas(headers, "Grpc-Encoding") == old(hdrHas(headers, "Grpc-Encoding"))
+//@   ensures[C12] meta.hasTimeout ==> hdrHas(headers, "Grpc-Timeout")
+//@   ensures[C12] !meta.hasTimeout ==> hdrHas(headers, "Grpc-Timeout") == old(hdrHas(headers, "Grpc-Timeout"))
+//@   ensures[C05] hdrSameExcept(headers, "Content-Type", "Grpc-Encoding", "Grpc-Accept-Encoding", "Grpc-Timeout")
+//@   modifies mapobj(headers), #LIB0
+//@ func (grpcServerProtocol).addProtocolRequestHeaders
+//@   requires headers != nil
+//@   ensures[C02] hdr(headers, "Content-Type") == "application/grpc+" + meta.codec && hdr(headers, "Te") == "trailers"
+//@   ensures[C02] meta.compression != "" ==> hdr(headers, "Grpc-Encoding") == meta.compression
+//@   ensures[C02] meta.compression == "" ==> hdrHas(headers, "Grpc-Encoding") == old(hdrHas(headers, "Grpc-Encoding"))
+//@   ensures[C12] !meta.hasTimeout ==> hdrHas(headers, "Grpc-Timeout") == old(hdrHas(headers, "Grpc-Timeout"))
+//@   ensures[C05] hdrSameExcept(headers, "Content-Type", "Te", "Grpc-Encoding", "Grpc-Accept-Encoding", "Grpc-Timeout")
+//@   modifies mapobj(headers), #LIB0
+//@ func (grpcWebServerProtocol).addProtocolRequestHeaders
+//@   requires headers != nil
+//@   ensures[C02] hdr(headers, "Content-Type") == "application/grpc-web+" + meta.codec
+//@   ensures[C02] meta.compression != "" ==> hdr(headers, "Grpc-Encoding") == meta.compression
+//@   ensures[C02] meta.compression == "" ==> hdrHas(headers, "Grpc-Encoding") == old(hdrHas(headers, "Grpc-Encoding"))
+//@   ensures[C12] !meta.hasTimeout ==> hdrHas(headers, "Grpc-Timeout") == old(hdrHas(headers, "Grpc-Timeout"))
+//@   ensures[C05] hdrSameExcept(headers, "Content-Type", "Grpc-Encoding", "Grpc-Accept-Encoding", "Grpc-Timeout")
+//@   modifies mapobj(headers), #LIB0
+//@ func (connectUnaryServerProtocol).addProtocolRequestHeaders
+//@   requires headers != nil
+//@   ensures[C02] hdr(headers, "Content-Type") == "application/" + meta.codec && hdr(headers, "Connect-Protocol-Version") == "1"
+//@   ensures[C02] meta.compression != "" ==> hdr(headers, "Content-Encoding") == meta.compression
+//@   ensures[C02] meta.compression == "" ==> hdrHas(headers, "Content-Encoding") == old(hdrHas(headers, "Content-Encoding"))
+//@   ensures[C12] !meta.hasTimeout ==> hdrHas(headers, "Connect-Timeout-Ms") == old(hdrHas(headers, "Connect-Timeout-Ms"))
+//@   ensures[C05] hdrSameExcept(headers, "Content-Type", "Content-Encoding", "Accept-Encoding", "Connect-Protocol-Version", "Connect-Timeout-Ms")
+//@   modifies mapobj(headers), #LIB0
+//@ func (connectStreamServerProtocol).addProtocolRequestHeaders
+//@   requires headers != nil
+//@   ensures[C02] hdr(headers, "Content-Type") == "application/connect+" + meta.codec
+//@   ensures[C02] meta.compression != "" ==> hdr(headers, "Connect-Content-Encoding") == meta.compression
+//@   ensures[C02] meta.compression == "" ==> hdrHas(headers, "Connect-Content-Encoding") == old(hdrHas(headers, "Connect-Content-Encoding"))
+//@   ensures[C12] !meta.hasTimeout ==> hdrHas(headers, "Connect-Timeout-Ms") == old(hdrHas(headers, "Connect-Timeout-Ms"))
+//@   ensures[C05] hdrSameExcept(headers, "Content-Type", "Connect-Content-Encoding", "Connect-Accept-Encoding", "Connect-Timeout-Ms")
+//@   modifies mapobj(headers), #LIB0
+//@ func (restServerProtocol).addProtocolRequestHeaders
+//@   requires headers != nil
+//@   ensures[C02] hdr(headers, "Content-Type") == "application/" + meta.codec
+//@   ensures[C02] meta.compression != "" ==> hdr(headers, "Content-Encoding") == meta.compression
+//@   ensures[C02] meta.compression == "" ==> hdrHas(headers, "Content-Encoding") == old(hdrHas(headers, "Content-Encoding"))
+//@   ensures[C12] !meta.hasTimeout ==> hdrHas(headers, "X-Server-Timeout") == old(hdrHas(headers, "X-Server-Timeout"))
+//@   ensures[C05] hdrSameExcept(headers, "Content-Type", "Content-Encoding", "Accept-Encoding", "X-Server-Timeout")
+//@   modifies mapobj(headers), #LIB0
